@@ -256,6 +256,13 @@ SCOPE_TEMPLATES = [
     '(t := amount * 2) > lim and t < 1000',
     'next((r.item for r in orders if r.n > %(k)d), "none")',
     'next((r.n for r in orders if r.n > 5), %(n)s)',
+    # a string literal is its characters: runs of blanks and tabs inside the quotes are part of the text
+    'contains("Alfa  Store")', 'contains("Alfa Store")', '"a  b" + description', 'description == "zulu 99  store"', 'description == "zulu 99 store"',
+    'len("a\tb") == 3', 'len("a   b")', 'split("x  y", "  ", 1)', 'anyof("ZULU  99", "qq")', 'startswith("APLPAY  Alfa")',
+    # fuzzy(): a text that contains the pattern verbatim is similar to it under every reading - wherever in the text it stands,
+    # also at the very end - and one that shares no character with it is not
+    'fuzzy("store")', 'fuzzy("#123")', 'fuzzy("99", 0.9)', 'fuzzy(description, "STORE", 1.0)', 'fuzzy("qqq")', 'fuzzy("alfa") and not fuzzy("qqqq", 0.5)',
+    'fuzzy(source, "ard")', 'fuzzy("e #123", 0.95) or fuzzy("9 store")',
     # positions count from the end when negative, as in Python (and fail beyond either end)
     'orders[-1].item if orders else "-"', '[r.item for r in orders if r.n > 0][-1] if orders else "-"', 'description[-1] if description else "-"',
     '(m := [r.n for r in orders]) and m[-1] == m[len(m) - 1]', '[r.n for r in orders][-%(k)d - 1]', 'description[-%(k)d - 2]', 'orders[-1].n + orders[0].n',
